@@ -527,6 +527,12 @@ func TestC19_LoadHistory(t *testing.T) {
 						t.Fatalf("%d command embeddings attached, the files present now hold %d; steps=%v", got, wantCmds, steps)
 					}
 					everAttached = true
+					// whatever was attached (a table cut off half-way included) is searched with a real query
+					for _, r := range db.SearchUniversal(q, opt) {
+						if math.IsNaN(r.Score) || math.IsInf(r.Score, 0) || r.Score < 0 || r.Command == nil {
+							t.Fatalf("search with the attached embeddings returned score %v (command nil: %v); steps=%v", r.Score, r.Command == nil, steps)
+						}
+					}
 				} else {
 					if got := rank(db, db.SearchUniversal(q, opt)); !rankEq(got, base) {
 						t.Fatalf("no usable embedding files, yet the search differs from the plain one:\n plain %s\n now   %s\n steps=%v", rankStr(base), rankStr(got), steps)
